@@ -21,7 +21,11 @@ type ruleSpec struct {
 	BT      bool     `json:"bt"`
 	// Dup: the rule lists its route twice (legal, if pointless)
 	Dup bool `json:"route_listed_twice,omitempty"`
+	// Extra: further routes of the rule (after Expr)
+	Extra []string `json:"further_routes,omitempty"`
 }
+
+func (r ruleSpec) exprs() []string { return append([]string{r.Expr}, r.Extra...) }
 
 type version []ruleSpec
 
@@ -54,6 +58,8 @@ var c06Exprs = []string{
 	// another name for the wildcard of an expression of the pool (within one version the first spelling of a shape is used for all
 	// its rules, see genVersion), and ':' / '*' inside a segment, where they are ordinary characters
 	"/:z", "/a:b", "/a*c", "/ab:c/:x",
+	// escapes which request path normalisation would spell differently (never probed, only loaded, replaced and removed)
+	"/caf%c3%a9/:x", "/%7Eu",
 }
 
 func exprValid(e string) bool { _, ok := core.ParseExpr(e); return ok }
@@ -75,6 +81,7 @@ func (v version) clone() version {
 	for i, r := range v {
 		out[i] = r
 		out[i].Methods = append([]string(nil), r.Methods...)
+		out[i].Extra = append([]string(nil), r.Extra...)
 	}
 	return out
 }
@@ -84,7 +91,9 @@ var c06MethodSets = [][]string{nil, {"GET"}, {"POST"}, {"GET", "POST"}, {"PUT"}}
 func genVersion(rng *rand.Rand, src string, prev version) version {
 	btFor := map[string]bool{}
 	fix := func(v version) version {
-		// equal backtracking flag for rules sharing an expression (statement's precondition)
+		// (1) equal backtracking flag for rules sharing an expression (statement's precondition) and one spelling (wildcard
+		// names) per expression within a version: differing names for one tree position are a third, undocumented reason for a
+		// rejection which the statement does not cover
 		spelling := map[string]string{}
 		for i := range v {
 			sh := core.Shape(v[i].Expr)
@@ -93,18 +102,48 @@ func genVersion(rng *rand.Rand, src string, prev version) version {
 			} else {
 				btFor[sh] = v[i].BT
 			}
-			// one spelling (wildcard names) per expression within a version: differing names for one tree position are a
-			// third, undocumented reason for a rejection which the statement does not cover
 			if sp, ok := spelling[sh]; ok {
 				v[i].Expr = sp
 			} else {
 				spelling[sh] = v[i].Expr
 			}
 		}
+		// (2) further routes: the flag belongs to the rule, so a further route is kept only if its expression carries the
+		// same flag everywhere in the version
+		for i := range v {
+			var keep []string
+			seen := map[string]bool{core.Shape(v[i].Expr): true}
+			for _, e := range v[i].Extra {
+				sh := core.Shape(e)
+				if seen[sh] {
+					continue
+				}
+				if b, ok := btFor[sh]; ok && b != v[i].BT {
+					continue
+				}
+				btFor[sh] = v[i].BT
+				if sp, ok := spelling[sh]; ok {
+					e = sp
+				} else {
+					spelling[sh] = e
+				}
+				seen[sh] = true
+				keep = append(keep, e)
+			}
+			v[i].Extra = keep
+		}
 		return v
 	}
 	newRule := func(id int) ruleSpec {
-		return ruleSpec{ID: fmt.Sprintf("%s-r%d", src, id), Expr: c06Exprs[rng.IntN(len(c06Exprs))], Methods: c06MethodSets[rng.IntN(len(c06MethodSets))], BT: rng.IntN(2) == 0, Dup: rng.IntN(10) == 0}
+		rs := ruleSpec{ID: fmt.Sprintf("%s-r%d", src, id), Expr: c06Exprs[rng.IntN(len(c06Exprs))], Methods: c06MethodSets[rng.IntN(len(c06MethodSets))], BT: rng.IntN(2) == 0, Dup: rng.IntN(10) == 0}
+		if rng.IntN(4) == 0 { // a rule with two or three routes
+			for k := 1 + rng.IntN(2); k > 0; k-- {
+				if e := c06Exprs[rng.IntN(len(c06Exprs))]; core.Shape(e) != core.Shape(rs.Expr) {
+					rs.Extra = append(rs.Extra, e)
+				}
+			}
+		}
+		return rs
 	}
 	if prev == nil {
 		n := 1 + rng.IntN(5)
@@ -173,6 +212,9 @@ func toRuleSet(src string, v version) *rconfig.RuleSet {
 	var rules []rconfig.Rule
 	for _, r := range v {
 		rl := mkRule(r.ID, r.Expr, r.Methods, boolp(r.BT))
+		for _, e := range r.Extra {
+			rl.Matcher.Routes = append(rl.Matcher.Routes, rconfig.Route{Path: e})
+		}
 		if r.Dup {
 			rl.Matcher.Routes = append(rl.Matcher.Routes, rl.Matcher.Routes[0])
 		}
@@ -184,8 +226,10 @@ func toRuleSet(src string, v version) *rconfig.RuleSet {
 // mustReject: the two reasons named by the statement.
 func mustReject(state map[string]version, src string, v version) (bool, string) {
 	for _, r := range v {
-		if !exprValid(r.Expr) {
-			return true, "invalid-expression"
+		for _, e := range r.exprs() {
+			if !exprValid(e) {
+				return true, "invalid-expression"
+			}
 		}
 	}
 	for other, ov := range state {
@@ -193,9 +237,13 @@ func mustReject(state map[string]version, src string, v version) (bool, string) 
 			continue
 		}
 		for _, o := range ov {
-			for _, r := range v {
-				if core.Shape(o.Expr) == core.Shape(r.Expr) {
-					return true, "owned-by-other-rule-set"
+			for _, oe := range o.exprs() {
+				for _, r := range v {
+					for _, e := range r.exprs() {
+						if core.Shape(oe) == core.Shape(e) {
+							return true, "owned-by-other-rule-set"
+						}
+					}
 				}
 			}
 		}
@@ -212,10 +260,12 @@ func refFromState(state map[string]version) []core.RefRule {
 	var out []core.RefRule
 	for _, s := range srcs {
 		for _, r := range state[s] {
-			segs, _ := core.ParseExpr(r.Expr)
 			ms := r.Methods
-			out = append(out, core.RefRule{ID: r.ID, Expr: core.Shape(r.Expr), Segs: segs, Backtrack: r.BT,
-				Cond: func(tag any, _ []string) bool { return methodHolds(ms, tag.(string)) }})
+			for _, e := range r.exprs() {
+				segs, _ := core.ParseExpr(e)
+				out = append(out, core.RefRule{ID: r.ID, Expr: core.Shape(e), Segs: segs, Backtrack: r.BT,
+					Cond: func(tag any, _ []string) bool { return methodHolds(ms, tag.(string)) }})
+			}
 		}
 	}
 	return out
